@@ -28,7 +28,7 @@ var schedPkgs = []string{
 	"plumbing/format/idxfile", "plumbing/cache",
 	"storage/filesystem", "storage/filesystem/dotgit",
 	"plumbing/format/packfile", "plumbing/transport",
-	"storage/memory", "x/storage/packfile/mmap",
+	"storage/memory", "x/storage/packfile/mmap", "plumbing",
 }
 
 var rewrites = map[string]string{
